@@ -15,11 +15,93 @@ class AnalysisError(Exception):
     """An anchor a rule needs has vanished / is outside the analysed fragment (exit 2)."""
 
 
+class _Normalise(ast.NodeTransformer):
+    """Removes statements that cannot affect any property (logging calls) and unifies annotated local assignments with
+    plain ones, so that rules are insensitive to added/removed log lines and to type annotations on locals."""
+
+    def _body(self, body):
+        out = []
+        for st in body:
+            if isinstance(st, ast.Expr) and isinstance(st.value, ast.Call):
+                f = st.value.func
+                if isinstance(f, ast.Attribute) and isinstance(f.value, ast.Name) and f.value.id in ("logger", "logging", "log", "_logger", "LOGGER"):
+                    continue
+            out.append(st)
+        if not out:
+            p = ast.Pass()
+            ast.copy_location(p, body[0]) if body else None
+            out = [p]
+        return out
+
+    def generic_visit(self, node):
+        super().generic_visit(node)
+        for fld in ("body", "orelse", "finalbody"):
+            b = getattr(node, fld, None)
+            if isinstance(b, list) and b and isinstance(b[0], ast.stmt):
+                setattr(node, fld, self._body(b))
+        return node
+
+    def visit_FunctionDef(self, node):
+        self._depth = getattr(self, "_depth", 0) + 1
+        self.generic_visit(node)
+        self._depth -= 1
+        return node
+
+    visit_AsyncFunctionDef = visit_FunctionDef
+
+    _NEG = {ast.Eq: ast.NotEq, ast.NotEq: ast.Eq, ast.Lt: ast.GtE, ast.GtE: ast.Lt, ast.Gt: ast.LtE, ast.LtE: ast.Gt,
+            ast.Is: ast.IsNot, ast.IsNot: ast.Is, ast.In: ast.NotIn, ast.NotIn: ast.In}
+
+    def visit_UnaryOp(self, node):
+        self.generic_visit(node)
+        # not (a == b) -> a != b ; not not x -> x (inside conditions only the truth value matters; kept conservative: comparisons only)
+        if isinstance(node.op, ast.Not) and isinstance(node.operand, ast.Compare) and len(node.operand.ops) == 1 and type(node.operand.ops[0]) in self._NEG:
+            c = node.operand
+            return ast.copy_location(ast.Compare(left=c.left, ops=[self._NEG[type(c.ops[0])]()], comparators=c.comparators), node)
+        return node
+
+    def visit_IfExp(self, node):
+        # canonical polarity: `a if not c else b` -> `b if c else a` (decided before the test itself is canonicalised)
+        if isinstance(node.test, ast.UnaryOp) and isinstance(node.test.op, ast.Not):
+            node = ast.copy_location(ast.IfExp(test=node.test.operand, body=node.orelse, orelse=node.body), node)
+        self.generic_visit(node)
+        return node
+
+    def visit_Assign(self, node):
+        self.generic_visit(node)
+        # x = x op e  ->  x op= e  (one canonical form for accumulation)
+        if len(node.targets) == 1 and isinstance(node.targets[0], (ast.Name, ast.Attribute)) and isinstance(node.value, ast.BinOp):
+            if ast.unparse(node.value.left) == ast.unparse(node.targets[0]):
+                return ast.copy_location(ast.AugAssign(target=node.targets[0], op=node.value.op, value=node.value.right), node)
+        return node
+
+    def visit_AnnAssign(self, node):
+        self.generic_visit(node)
+        if getattr(self, "_depth", 0) > 0 and node.value is not None and node.simple in (0, 1):
+            a = ast.copy_location(ast.Assign(targets=[node.target], value=node.value, type_comment=None), node)
+            if isinstance(a.value, ast.BinOp) and ast.unparse(a.value.left) == ast.unparse(a.targets[0]):
+                return ast.copy_location(ast.AugAssign(target=a.targets[0], op=a.value.op, value=a.value.right), node)
+            return a
+        return node
+
+
+def _normalise(tree: ast.Module) -> ast.Module:
+    t = _Normalise().visit(tree)
+    # `else: pass` left behind by removed log lines is dropped
+    for n in ast.walk(t):
+        if isinstance(n, (ast.If, ast.For, ast.While, ast.Try)) and getattr(n, "orelse", None) and all(isinstance(x, ast.Pass) for x in n.orelse):
+            n.orelse = []
+    return ast.fix_missing_locations(t)
+
+
 class ModuleInfo:
     def __init__(self, relpath: str, src: str):
         self.relpath = relpath  # e.g. spsdk/utils/misc.py
         self.src = src
-        self.tree = ast.parse(src, filename=relpath)
+        self.tree = _normalise(ast.parse(src, filename=relpath))
+        if os.environ.get("VERIF_NO_RESTORE_LOCALS") != "1":
+            from . import reflocals
+            self.renamed_locals = reflocals.restore(relpath, self.tree, hashlib.sha256(src.encode()).hexdigest()[:16])
         name = relpath[:-3].replace("/", ".")
         if name.endswith(".__init__"):
             name = name[: -len(".__init__")]
